@@ -28,7 +28,7 @@ func init() {
 		"Decides the code-shape obligations of single-flight loading on every path: a call record is created only inside the in-flight table's computation when none exists (C08.getorcreate); doCall/doBulkCall register, before invoking the loader, a deferred recover that finishes the record(s) (C08.finish); the finish callback clears the record if it is still its own and releases the waiters exactly once after the table computation (C08.release); every record obtained with shouldLoad is dispatched exactly once before any wait and records obtained without it are only waited on (C08.dispatch). "+
 			"NOT decided: non-overlap of loader invocations in time and termination under all interleavings.",
 		[]string{"sync.WaitGroup semantics", "the executor runs submitted closures"},
-		ruleLoadLemma, ruleLoadOps, ruleBulkOps, ruleC10TableC10, ruleC08GetOrCreate, ruleC08Finish, ruleC10Inv, ruleC10Distribute, ruleC10Finisher, ruleC09Clear)
+		ruleLoadLemma, ruleLoadOps, ruleBulkOps, ruleC10TableC10, ruleC08GetOrCreate, ruleC08Finish, ruleC10Inv, ruleC10Distribute, ruleC10Finisher, ruleC09Clear, ruleC08TableOnce, ruleC02LockOrder)
 }
 
 func init() {
